@@ -279,8 +279,13 @@ void StringDictionaryFMINDEX::build_ssa(uchar *text, size_t len,
     // One sample per text position that is a multiple of the sampling step
     uint samples = len / BWTsampling + 1;
 
-    for (uint i = 0; i < samples; i++)
-      fm_index->suff_sample[i] = separators->rank1(fm_index->suff_sample[i]);
+    for (uint i = 0; i < samples; i++) {
+      // The empty suffix may be sampled too: it lies one past the bitmap
+      size_t pos = fm_index->suff_sample[i];
+      if (pos >= len)
+        pos = len - 1;
+      fm_index->suff_sample[i] = separators->rank1(pos);
+    }
   }
 }
 
